@@ -66,9 +66,16 @@ InvBegin ==
   /\ viol' = viol \cup If(fr # <<>>, "invocation_overlap")
   /\ UNCHANGED <<scen, kind, sm, seen>>
 
+\* Custom's maybeValue begins (hook): a frame is opened; the library's own Custom functions (Make) have no harness events,
+\* a scripted one identifies the frame with its cinv.begin
+CustomBegin ==
+  /\ Is("h.custom.begin") /\ Adv
+  /\ fr' = Append(fr, Frame(-1, "lib"))
+  /\ viol' = viol /\ UNCHANGED <<scen, kind, sm, seen>>
+
 CInvBegin ==
   /\ Is("cinv.begin") /\ Adv
-  /\ fr' = Append(fr, Frame(Ev.inv, "custom"))
+  /\ fr' = IF fr # <<>> /\ Top.k = "lib" THEN SetTop(Frame(Ev.inv, "custom")) ELSE Append(fr, Frame(Ev.inv, "custom"))
   /\ viol' = viol /\ UNCHANGED <<scen, kind, sm, seen>>
 
 \* the function returned or unwound: from now on its cleanups may run
@@ -84,8 +91,8 @@ CInvEnd == /\ Is("cinv.end") /\ Adv /\ FnEnd(Ev.inv) /\ viol' = viol /\ UNCHANGE
 \* Custom's maybeValue is over (its deferred cleanup has run): the frame must be finished
 CustomEnd ==
   /\ Is("h.custom.end") /\ Adv
-  /\ IF fr # <<>> /\ Top.k = "custom"
-     THEN /\ viol' = viol \cup If(Top.stack # <<>>, "cleanup_not_run") \cup If(Top.open, "cleanup_before_return")
+  /\ IF fr # <<>> /\ Top.k \in {"custom", "lib"}
+     THEN /\ viol' = viol \cup If(Top.stack # <<>>, "cleanup_not_run") \cup If(Top.k = "custom" /\ Top.open, "cleanup_before_return")
           /\ fr' = SubSeq(fr, 1, Len(fr) - 1)
      ELSE /\ viol' = viol /\ fr' = fr
   /\ UNCHANGED <<scen, kind, sm, seen>>
@@ -209,7 +216,7 @@ SmEnd ==
   /\ sm' = [sm EXCEPT !.active = FALSE]
   /\ UNCHANGED <<scen, fr, kind, seen>>
 
-Handled == {"hang", "example.begin", "example.end", "scen.begin", "scen.end", "h.phase", "h.once.begin", "inv.begin", "cinv.begin", "inv.end", "cinv.end", "h.custom.end", "h.once.end",
+Handled == {"h.custom.begin", "hang", "example.begin", "example.end", "scen.begin", "scen.end", "h.phase", "h.once.begin", "inv.begin", "cinv.begin", "inv.end", "cinv.end", "h.custom.end", "h.once.end",
             "cleanup.reg", "cleanup.run", "cleanup.end", "ctx", "sm.begin", "sm.inv.begin", "sm.inv.end", "sm.action.begin", "sm.action.end",
             "draw", "call", "h.repeat.more", "sm.end"}
 \* the watchdog saw an invocation still running after 90 s: the library hung
@@ -217,7 +224,7 @@ Hang == /\ Is("hang") /\ Adv /\ viol' = viol \cup {"hangs"} /\ UNCHANGED <<scen,
 
 Other == /\ l <= Len(Trace) /\ Trace[l].ev \notin Handled /\ Adv /\ UNCHANGED <<scen, fr, kind, sm, viol, seen>>
 
-Next == Hang \/ ExampleBegin \/ ExampleEnd \/ ScenBegin \/ ScenEnd \/ Phase \/ OnceBegin \/ InvBegin \/ CInvBegin \/ InvEnd \/ CInvEnd \/ CustomEnd \/ OnceEnd \/ Reg \/ Run \/ RunEnd
+Next == CustomBegin \/ Hang \/ ExampleBegin \/ ExampleEnd \/ ScenBegin \/ ScenEnd \/ Phase \/ OnceBegin \/ InvBegin \/ CInvBegin \/ InvEnd \/ CInvEnd \/ CustomEnd \/ OnceEnd \/ Reg \/ Run \/ RunEnd
         \/ Ctx \/ SmBegin \/ SmInvBegin \/ SmInvEnd \/ SmActBegin \/ SmActEnd \/ SmDraw \/ SmCall \/ RepeatMore \/ SmEnd \/ Other
 
 Spec == Init /\ [][Next]_vars
